@@ -10,7 +10,7 @@
      reset q     : two branches, projected on q = 0, and projected on q = 1 then flipped back to 0
    Branches whose vector is identically zero have weight 0 and are dropped by [clean]. *)
 From Coq Require Import QArith.
-From CKT Require Import Common.Base Common.Circ Common.QSim.
+From CKT Require Import Common.Base Common.Circ Common.QSim Model.ResetPasses.
 Close Scope Q_scope.
 
 Section BranchSem.
@@ -70,3 +70,49 @@ Definition qbrun (gi : nat -> option qgate) (nq nc : nat) (c : circ) : list (lis
 
 (* Born law carried by a branch list: (register, squared norm) per branch *)
 Definition qlaw (l : list (list bool * vec)) : list (list bool * q2) := map (fun b => (fst b, norm2 (snd b))) l.
+
+(* ---- vocabulary of the statements about the concrete semantics (added; nothing above changed) ---- *)
+
+(* every gate of the circuit has an interpretation of the right arity (an id without entry, or a wrong
+   arity, would silently act as the identity in [qgapply]/[qapply]) *)
+Definition qarity (g : qgate) : nat :=
+  match g with Gcx | Gcz | Gswap => 2 | Gccx => 3 | _ => 1 end.
+Definition interpreted (gi : nat -> option qgate) (c : circ) : bool :=
+  forallb (fun x => match iop x with
+                    | Gate g => match gi g with Some qg => Nat.eqb (qarity qg) (length (iqs x)) | None => false end
+                    | _ => true
+                    end) c.
+
+(* in v, qubit q is |0> and unentangled: v is supported where bit q = 0 *)
+Definition qZ (q : nat) (v : vec) : Prop := forall i, Nat.testbit i q = true -> vget v i = azero.
+
+(* the ten algebraic laws under which the two state-by-state reset passes are correct in a branch semantics
+   (Proofs/ResetSimP.v).  [Zq q s]: in s, qubit q is |0> and unentangled. *)
+Record reset_laws {state : Type} (apply : nat -> list nat -> state -> state) (proj : state -> nat -> bool -> state)
+       (flipx : state -> nat -> state) (szero : state -> bool) (Zq : nat -> state -> Prop) : Prop := {
+  rl_proj0_id : forall q s, Zq q s -> proj s q false = s;
+  rl_proj1_zero : forall q s, Zq q s -> szero (flipx (proj s q true) q) = true;
+  rl_reset_Z0 : forall q s, Zq q (proj s q false);
+  rl_reset_Z1 : forall q s, Zq q (flipx (proj s q true) q);
+  rl_apply_Z : forall g qs q s, ~ In q qs -> Zq q s -> Zq q (apply g qs s);
+  rl_proj_Z : forall q q' b s, q <> q' -> Zq q s -> Zq q (proj s q' b);
+  rl_flipx_Z : forall q q' s, q <> q' -> Zq q s -> Zq q (flipx s q');
+  rl_zero_apply : forall g qs s, szero s = true -> szero (apply g qs s) = true;
+  rl_zero_proj : forall s q b, szero s = true -> szero (proj s q b) = true;
+  rl_zero_flipx : forall s q, szero s = true -> szero (flipx s q) = true
+}.
+
+(* the instructions _remove_final_resets deletes, in program order (the scan collects indices from the end) *)
+Definition final_removed (nq : nat) (c : circ) : circ :=
+  rev (map (fun i => nth i c dummy_instr) (final_scan (repeat true nq) (length c) 0 (rev c))).
+
+(* commutation laws of a branch semantics: the two halves of a reset of q (project, flip back) commute with
+   everything that acts on other qubits *)
+Record commute_laws {state : Type} (apply : nat -> list nat -> state -> state) (proj : state -> nat -> bool -> state)
+       (flipx : state -> nat -> state) : Prop := {
+  cl_proj_apply : forall g qs q b s, ~ In q qs -> proj (apply g qs s) q b = apply g qs (proj s q b);
+  cl_flipx_apply : forall g qs q s, ~ In q qs -> flipx (apply g qs s) q = apply g qs (flipx s q);
+  cl_proj_proj : forall q q' b b' s, q <> q' -> proj (proj s q' b') q b = proj (proj s q b) q' b';
+  cl_flipx_proj : forall q q' b' s, q <> q' -> flipx (proj s q' b') q = proj (flipx s q) q' b';
+  cl_flipx_flipx : forall q q' s, q <> q' -> flipx (flipx s q') q = flipx (flipx s q) q'
+}.
